@@ -32,7 +32,10 @@ def gen(ctx):
                         cases.append(("missing", idk, pre, n, base[:j] + base[j + 1:]))
                     cases.append(("dup", idk, pre, n, base + [item(rng.choice(perm), marker="dup")]))
                     cases.append(("foreign", idk, pre, n, base + [rng.choice(["p%d:r31" % (n + rng.randrange(3)), "n18446744073709551615:r31",
-                                                                               "n18446744073709551616:r31", "z:r31", "s%s:r31" % hx(b"x"), "s%s:r31" % hx(b"+1")])]))
+                                                                               "n18446744073709551616:r31", "z:r31", "s%s:r31" % hx(b"x"), "s%s:r31" % hx(b"+1"), "s-:r31"])]))
+                    # an element whose id is the EMPTY string (no numeric reading at all) after / before the genuine answers
+                    cases.append(("foreign", idk, pre, n, base + ["s-:r%s" % hx(b'"intruder"')]))
+                    cases.append(("foreign", idk, pre, n, ["s-:r%s" % hx(b'"intruder"')] + base[1:]))
     # every sequence of n ids from the batch's own range (repeats and omissions together)
     for n in range(1, ctx.scale(4, 5) + 1):
         for seq in itertools.product(range(n), repeat=n):
